@@ -20,6 +20,8 @@ import (
 
 	git "github.com/go-git/go-git/v6"
 
+	"golang.org/x/sys/unix"
+
 	"verif/internal/gen"
 	"verif/internal/gitx"
 	"verif/internal/twin"
@@ -105,7 +107,8 @@ type mutator struct {
 
 func (m *mutator) stamp(full string) {
 	m.clock = m.clock.Add(time.Second)
-	os.Chtimes(full, m.clock, m.clock)
+	ts := []unix.Timespec{unix.NsecToTimespec(m.clock.UnixNano()), unix.NsecToTimespec(m.clock.UnixNano())}
+	unix.UtimesNanoAt(unix.AT_FDCWD, full, ts, unix.AT_SYMLINK_NOFOLLOW) // works for symlinks too
 }
 
 func (m *mutator) note(p, kind string) {
@@ -185,6 +188,7 @@ func (m *mutator) worktreeRound(n int) {
 				os.Remove(full)
 				os.MkdirAll(full, 0o755)
 				os.WriteFile(filepath.Join(full, "inner"), []byte("inner\n"), 0o644)
+				m.stamp(filepath.Join(full, "inner"))
 				m.note(p, "file->dir")
 				m.feat[p+"/inner"] = "inner-of-file->dir"
 			}
@@ -202,6 +206,7 @@ func (m *mutator) worktreeRound(n int) {
 				m.note(p, "symlink->file")
 			} else {
 				os.Symlink("elsewhere", full)
+				m.stamp(full)
 				m.note(p, "file->symlink")
 			}
 		case k == 7: // untracked files, some matching ignore patterns
@@ -216,6 +221,7 @@ func (m *mutator) worktreeRound(n int) {
 				continue
 			}
 			os.WriteFile(filepath.Join(m.dir, p), []byte("untracked\n"), 0o644)
+			m.stamp(filepath.Join(m.dir, p))
 			m.note(p, "untracked")
 		case k == 8: // untracked directory trees, some ignored
 			d := []string{"build", "tmp", "newdir", "sub", "d", "a b/build", "newdir/tmp"}[r.Intn(7)]
@@ -228,6 +234,7 @@ func (m *mutator) worktreeRound(n int) {
 				continue
 			}
 			os.WriteFile(filepath.Join(m.dir, p), []byte("in new dir\n"), 0o644)
+			m.stamp(filepath.Join(m.dir, p))
 			m.note(p, "untracked-in-newdir")
 		case k == 9: // empty directory
 			p := []string{"emptydir", "e1/e2", "build/empty"}[r.Intn(3)]
@@ -277,6 +284,7 @@ func (m *mutator) worktreeRound(n int) {
 			if !m.exists(p) && !twin.Conflicts(m.tree, p) {
 				os.MkdirAll(filepath.Dir(filepath.Join(m.dir, p)), 0o755)
 				os.Symlink("nowhere", filepath.Join(m.dir, p))
+				m.stamp(filepath.Join(m.dir, p))
 				m.note(p, "untracked-symlink")
 			}
 		case k == 13 && len(paths) > 0: // touch only (mtime changes, content same)
@@ -631,7 +639,7 @@ func run(c *vf.Ctx) {
 					case !fileMode && len(d.git) == 2 && len(d.gogit) == 2 && norm(d.git)[0] == d.gogit[0] && d.git[1] == ' ' && d.gogit[1] == 'M':
 						key = "status:filemode-false:exec-bit-difference-reported-modified"
 					case autocrlf != "" && len(d.git) == 2 && len(d.gogit) == 2 && d.git[1] == ' ' && d.gogit[1] == 'M' && norm(d.git)[0] == d.gogit[0] &&
-						bytes.Contains(headTree[d.path].Content, []byte("\r\n")) && (fileMode || !strings.Contains(feat, "chmod")) && !m.contentTouched(d.path):
+						bytes.Contains(headTree[d.path].Content, []byte("\r\n")) && (fileMode || !strings.Contains(feat, "chmod")) && diskEquals(filepath.Join(D, filepath.FromSlash(d.path)), headTree[d.path].Content):
 						key = "status:autocrlf:unchanged-file-whose-blob-has-crlf-reported-modified"
 					case d.git == "D?" && d.gogit == "??":
 						key = "status:staged-deletion-still-on-disk:staging-D-reported-untracked"
@@ -679,19 +687,14 @@ func run(c *vf.Ctx) {
 
 type failure struct{ path, git, gogit string }
 
-// contentTouched: some mutation changed the bytes or type of the path in the worktree or staged it anew.
-func (m *mutator) contentTouched(p string) bool {
-	for _, l := range m.log {
-		k := strings.SplitN(l, ":", 2)
-		if len(k) == 2 && k[1] == p {
-			switch k[0] {
-			case "touch", "tracked-but-ignored", "chmod", "git-index-chmod":
-			default:
-				return true
-			}
-		}
+// diskEquals: the regular file at full holds exactly these bytes.
+func diskEquals(full string, want []byte) bool {
+	fi, err := os.Lstat(full)
+	if err != nil || !fi.Mode().IsRegular() {
+		return false
 	}
-	return false
+	b, err := os.ReadFile(full)
+	return err == nil && bytes.Equal(b, want)
 }
 
 func (m *mutator) logged(entry string) bool {
